@@ -29,7 +29,13 @@ class aggregate_node_transformer(ast.NodeTransformer):
     """
 
     def visit_Call(self, node):
-        if type(node.func) is ast.Name:
+        # A shortcut is a call with exactly one argument: a keyword argument or a starred argument
+        # makes it another call, which is left as it is.
+        if (
+            type(node.func) is ast.Name
+            and len(node.keywords) == 0
+            and not any(isinstance(a, ast.Starred) for a in node.args)
+        ):
             if (node.func.id == "len" or node.func.id == "Count") and (len(node.args) == 1):
                 # This is a len(sequence) call, which should be turned into a .Count() call.
                 return _generate_count_call(self.visit(node.args[0]))
